@@ -11,6 +11,12 @@
  *   J<id>   myth_join(id), the result must be MAGIC ^ id
  *   D<id>   myth_detach(id) from the main thread (the target may or may not have finished)
  *   Y<n>    the main thread yields n times
+ *   E<stacksize>:<nworkers>
+ *           new epoch: wait until every thread is through its finish callback, myth_fini(),
+ *           myth_init_ex() with this default stack size and worker count (as the first op: the
+ *           initial myth_init_ex instead of myth_init()).  Logged as an "epoch" event
+ *           (val = workers, extra = default stack size now in force): extents of default stacks
+ *           are always computed with the size of the CURRENT epoch.
  *
  * A callback installed in g_myth_verif_cb records every alloc/free/finish/callback event
  * (sequence = order of a global lock, worker rank, object, value, the address of a local of
@@ -40,7 +46,8 @@ static const char * const ids[] = {
   "alloc.desc", "alloc.stack", "free.desc", "free.stack", "create.init", "create.start",
   "finish.enter", "cb.enter", "cb.leave", "finish.readjoin", "finish.cb.detached",
   "finish.cb.freedesc", "finish.cb.ready2", "join.reap", "detach.reap", "detach.set",
-  "detach.fast", "detach.check", "join.check", "join.cb.set", "yield.enter", 0 };
+  "detach.fast", "detach.check", "join.check", "join.cb.set", "yield.enter", "epoch", 0 };
+#define EPOCH_ID 21
 enum { ALLOC_DESC, ALLOC_STACK, FREE_DESC, FREE_STACK, CREATE_INIT, CREATE_START, FINISH_ENTER,
        CB_ENTER, CB_LEAVE, FIN_READJOIN, FIN_CB_DET, FIN_CB_FREEDESC, FIN_CB_READY2 };
 
@@ -263,6 +270,40 @@ static void on_signal(int sig) {
   _exit(128 + sig);
 }
 
+/* let every thread (detached ones too) get through its finish callback */
+static void quiesce(void) {
+  int i;
+  for (;;) {
+    long total = n_created;
+    if (n_done >= total && n_fin_done >= total) break;
+    myth_yield();
+  }
+  for (i = 0; i < 20; i++) myth_yield();
+  usleep(2000);
+}
+
+static void start_epoch(const char * op, int first) {
+  unsigned long sz = 0; int nw = 1;
+  myth_globalattr_t ga;
+  if (sscanf(op, "E%lu:%d", &sz, &nw) != 2 || nw < 1 || nw > 32) { printf("R badop %s\n", op); exit(2); }
+  if (!first) {
+    quiesce();
+    recording = 0;
+    myth_fini();
+  }
+  myth_globalattr_init(&ga);
+  myth_globalattr_set_stacksize(&ga, (size_t)sz);
+  myth_globalattr_set_n_workers(&ga, nw);
+  myth_init_ex(&ga);
+  lock();
+  if (nlog < caplog) {
+    ev_t * e = &evlog[nlog++];
+    e->id = EPOCH_ID; e->rank = g_worker_rank; e->obj = 0; e->val = nw; e->sp = 0; e->extra = g_attr.stacksize;
+  }
+  unlock();
+  recording = 1;
+}
+
 /* a native thread: the library may use SIGALRM itself */
 static void * watchdog(void * a) {
   int i;
@@ -278,17 +319,18 @@ int main(int argc, char ** argv) {
   int i;
   static char altstack[1 << 16];
   stack_t ss; struct sigaction sa;
-  long total;
   evlog = malloc(caplog * sizeof(ev_t));
   ss.ss_sp = altstack; ss.ss_size = sizeof(altstack); ss.ss_flags = 0;
   sigaltstack(&ss, 0);
   memset(&sa, 0, sizeof(sa)); sa.sa_handler = on_signal; sa.sa_flags = SA_ONSTACK;
   { pthread_t wd; pthread_create(&wd, 0, watchdog, 0); }
   g_myth_verif_cb = cb;
-  myth_init();
+  i = 1;
+  if (argc > 1 && argv[1][0] == 'E') { start_epoch(argv[1], 1); i = 2; }
+  else myth_init();
   sigaction(SIGSEGV, &sa, 0); sigaction(SIGBUS, &sa, 0); sigaction(SIGABRT, &sa, 0); sigaction(SIGILL, &sa, 0);
   recording = 1;
-  for (i = 1; i < argc; i++) {
+  for (; i < argc; i++) {
     const char * op = argv[i];
     int id, det, cf, y, kids, n; long size, ksize;
     if (sscanf(op, "C%d:%ld:%d:%d:%d:%d:%ld", &id, &size, &det, &cf, &y, &kids, &ksize) == 7 && id >= 0 && id < MAXT) {
@@ -302,16 +344,11 @@ int main(int argc, char ** argv) {
       myth_detach(specs[id].th);
     } else if (sscanf(op, "Y%d", &n) == 1) {
       while (n-- > 0) myth_yield();
+    } else if (op[0] == 'E') {
+      start_epoch(op, 0);
     } else { printf("R badop %s\n", op); return 2; }
   }
-  /* let every thread (detached ones too) get through its finish callback */
-  for (;;) {
-    total = n_created;
-    if (n_done >= total && n_fin_done >= total) break;
-    myth_yield();
-  }
-  for (i = 0; i < 20; i++) myth_yield();
-  usleep(2000);
+  quiesce();
   recording = 0;
   g_myth_verif_cb = 0;
   myth_fini();
